@@ -154,13 +154,18 @@ type loop struct {
 	got  [][]byte
 }
 
-func newLoop() *loop {
+func newLoop(noOpts ...bool) *loop {
 	l := &loop{}
 	drv := testdrv.New("verifmsg")
 	ins, _ := drv.Ins()
 	outs, _ := drv.Outs()
-	_, err := midi.ListenTo(ins[0], func(m midi.Message, ts int32) { l.got = append(l.got, append([]byte{}, m...)) },
-		midi.UseSysEx(), midi.UseTimeCode(), midi.UseActiveSense())
+	// channel voice and system common messages belong to none of the three filterable classes: they must arrive
+	// whatever the listen options are
+	opts := []midi.Option{midi.UseSysEx(), midi.UseTimeCode(), midi.UseActiveSense()}
+	if len(noOpts) > 0 && noOpts[0] {
+		opts = nil
+	}
+	_, err := midi.ListenTo(ins[0], func(m midi.Message, ts int32) { l.got = append(l.got, append([]byte{}, m...)) }, opts...)
 	if err != nil {
 		hx.Die(err)
 	}
@@ -200,7 +205,7 @@ func doCall(fn string, args []int, ctx ...interface{}) *CallRec {
 		r.Bytes = append(hx.B{}, m...)
 		r.Acc = allMidiAcc(m)
 		// a fresh loopback per record; an optional context message goes through the same listener first
-		lp := newLoop()
+		lp := newLoop(len(args)%2 == 1 || (len(args) > 0 && args[0]%2 == 1))
 		if r.CtxFn != "" {
 			lp.roundtrip(construct(r.CtxFn, r.CtxA))
 		}
@@ -415,13 +420,15 @@ func cmdCtorSweep(args []string) {
 	}
 	var wg sync.WaitGroup
 	sem := make(chan struct{}, 16)
+	jobs := 0
 	job := func(f func(lp *loop) (int64, int64)) {
 		wg.Add(1)
 		sem <- struct{}{}
 		go func() {
 			defer wg.Done()
 			defer func() { <-sem }()
-			c, l := f(newLoop())
+			jobs++
+			c, l := f(newLoop(jobs%2 == 0))
 			mu.Lock()
 			calls += c
 			looped += l
